@@ -46,6 +46,7 @@ inductive Atom where
   | pinnedInIpfs          -- `localpis[own mode][cid]` present (localStatus)
   | incExtra              -- argument of localStatus
   | fMatch (s : Status)   -- `filter.Match(S)`
+  | fMatchSelf            -- `pi.Status.Match(filter)` (statusAll's last filter)
   | unknown
   deriving DecidableEq, Repr
 
@@ -57,6 +58,7 @@ inductive Act where
   | pinDefault | pinRecorded | enqueuePin | enqueueUnpin
   | trackNewQ | trackNewRemote | chPin | chUnpin | send | errFull | retErr | clean       -- round 8c: enqueue / Track
   | retEnqueuePin | retEnqueueUnpinCid | getExists | retRecOp | retRecStatus
+  | localAll | overlayOps | filterLoop | putOp                                            -- round 8c: statusAll
   | lookupOwnMode | skip | putInfo | putIpfs                                               -- round 8c: localStatus
   | listAll | forEach | recEntry | appendResp                                            -- round 8c: RecoverAll
   | retOp | addError | retInfo | setStatus (s : Status) | setIpfs | pinLsCid              -- round 8c: Tracker.Status
@@ -409,6 +411,41 @@ def execLocal : List Act → Status → Bool → Option (Option Status)
 
 def localT (t : Table) (k : Kind) (pinned incExtra : Bool) (fm : Status → Bool) : Option (Option Status) :=
   (firstRow t (envLocal k pinned incExtra fm)).bind (fun a => execLocal a .undefined false)
+
+/-! ### round 8c: `statusAll` — `localStatus`, then the operation table laid over it, then the filter -/
+
+def envSelf (b : Bool) : Atom → Bool
+  | .fMatchSelf => b
+  | _ => false
+
+/-- the entry of ONE cid through `statusAll`: `loc` = its entry from `localStatus`, `op` = the status of its table entry, `fm` = the filter.
+    `some none` = not listed. -/
+def execSA (overlay filt : Table) (op : Option Status) (fm : Status → Bool) : List Act → Option Status → Option (Option Status)
+  | [], _ => none
+  | .localAll :: r, e => execSA overlay filt op fm r e
+  | .overlayOps :: r, e =>
+    match firstRow overlay (fun _ => false) with
+    | some [.putOp, .retVoid] => execSA overlay filt op fm r (match op with | some st => some st | none => e)
+    | _ => none
+  | .filterLoop :: r, e =>
+    match e with
+    | none => execSA overlay filt op fm r none
+    | some st =>
+      match firstRow filt (envSelf (fm st)) with
+      | some [.appendResp, .retVoid] => execSA overlay filt op fm r (some st)
+      | some [.retVoid] => execSA overlay filt op fm r none
+      | _ => none
+  | .retNil :: _, e => some e
+  | .retErr :: _, _ => some none
+  | _, _ => none
+
+/-- `statusAll(ctx, filter)`'s entry for `c` on a model state; `ls` = `localStatus` could list (`PinLs` works) -/
+def statusAllT (outer overlay filt : Table) (s : State) (ls : Bool) (fm : Status → Bool) (c : Nat) : Option (Option Status) :=
+  match firstRow outer (envErr ls) with
+  | some acts =>
+    execSA overlay filt (match s.cur c with | some i => some (opStatus (s.ops i)) | none => none) fm acts
+      (statusAllOf { s with cur := fun _ => none } c)
+  | none => none
 
 def allStatuses : List Status :=
   [.pinned, .pinning, .pinQueued, .pinError, .unpinned, .unpinning, .unpinQueued, .unpinError,
